@@ -82,7 +82,8 @@ def run(ctx):
     witnesses(ctx)
     # rollback-heavy histories of plain deploys (no filter, no adopt): several deploys, then rollbacks back, forward (redo) and sideways
     ds.run_hist_stream(ctx, 10 if quick else 150, 0, props={'C06'}, weights={'deploy': 1}, stream='redo_hist', simple=True,
-                       kinds_seq=lambda rng: ['deploy'] * rng.randrange(2, 5) + ['rollback'] * rng.randrange(3, 6))
+                       kinds_seq=lambda rng: ['deploy'] * rng.randrange(2, 5) + ['rollback'] * rng.randrange(3, 6),
+                       setup=lambda cw, rng: ds.setup_two_roots(cw, rng) if rng.random() < 0.6 else None)
     # deploys that each change one root only, then rollbacks to the middle one: every root's manifest, changed or not, must come back
     ds.run_hist_stream(ctx, 5 if quick else 60, 8, props={'C06'}, weights={'deploy': 1}, stream='two_root_hist',
                        plan_script=ds.hist_two_roots, setup=ds.setup_two_roots)
